@@ -1,7 +1,7 @@
 (* C08 -- Fast fields return exactly the values that were indexed.
    Only statements, each closed by `exact <lemma>`, non-vacuity examples, and their assumptions. *)
 From TV Require Import Base.Prelude Generated.Constants
-  Columnar.BitPack Columnar.MonoMap Columnar.Stats Columnar.Spec.
+  Columnar.BitPack Columnar.MonoMap Columnar.Stats Columnar.Line Columnar.Blockwise Columnar.BlockwiseProofs Columnar.Spec.
 Local Open Scope N_scope.
 
 (* ---- bit packer: any width allowed by the pinned 56/64 rule, value lists of ANY length ---- *)
@@ -52,6 +52,31 @@ Section FastDivide.
     bitpacked_num_vals (bitpacked_serialize fdiv vals) = N.of_nat (length vals) /\
     (vals <> [] -> In (bitpacked_min (bitpacked_serialize fdiv vals)) vals /\ In (bitpacked_max (bitpacked_serialize fdiv vals)) vals).
   Proof. exact (bitpacked_stats fdiv fdiv_spec). Qed.
+
+  (* linear codec (Line::train on the first LINE_ESTIMATION_BLOCK_LEN rows, wrapping arithmetic, >> 32, as i32):
+     exact whatever the quality of the line; applicable iff the column has at least that many rows *)
+  Theorem C08_codec_exact_linear : forall vals col i, all_u64 vals -> linear_serialize fdiv vals = Some col ->
+    (i < length vals)%nat -> linear_get col (N.of_nat i) = Some (nth i vals 0).
+  Proof. exact (linear_exact fdiv fdiv_spec). Qed.
+
+  Theorem C08_codec_linear_applicable : forall vals, LINE_ESTIMATION_BLOCK_LEN <= N.of_nat (length vals) ->
+    exists col, linear_serialize fdiv vals = Some col.
+  Proof. exact (linear_applicable fdiv). Qed.
+
+  Theorem C08_codec_stats_linear : forall vals col, all_u64 vals -> linear_serialize fdiv vals = Some col ->
+    Forall (fun v => linear_min col <= v <= linear_max col) vals /\ linear_num_vals col = N.of_nat (length vals).
+  Proof. exact (linear_stats fdiv fdiv_spec). Qed.
+
+  (* block-wise linear codec (512-row blocks, one bit packer shared by all blocks, per-block line and width,
+     offsets recomputed by the reader): exact for every u64 column of any length *)
+  Theorem C08_codec_exact_blockwise : forall vals i, all_u64 vals -> (i < length vals)%nat ->
+    blockwise_get (blockwise_serialize fdiv vals) (N.of_nat i) = Some (nth i vals 0).
+  Proof. exact (blockwise_exact fdiv fdiv_spec). Qed.
+
+  Theorem C08_codec_stats_blockwise : forall vals, all_u64 vals ->
+    Forall (fun v => blockwise_min (blockwise_serialize fdiv vals) <= v <= blockwise_max (blockwise_serialize fdiv vals)) vals /\
+    blockwise_num_vals (blockwise_serialize fdiv vals) = N.of_nat (length vals).
+  Proof. exact (blockwise_stats fdiv fdiv_spec). Qed.
 End FastDivide.
 
 (* range transform of the bit-packed reader: exact whenever the upper end is not below the column
@@ -126,6 +151,11 @@ Proof. vm_compute. split; reflexivity. Qed.
 Example i64_example : i64_to_u64 (- 2 ^ 63) = 0 /\ i64_to_u64 (2 ^ 63 - 1) = 2 ^ 64 - 1 /\ i64_to_u64 0 = 2 ^ 63.
 Proof. vm_compute. repeat split; reflexivity. Qed.
 
+Example blockwise_codec_example :
+  map (blockwise_get (blockwise_serialize udiv [18446744073709551615; 0; 9223372036854775808; 7])) [0; 1; 2; 3]
+  = map Some [18446744073709551615; 0; 9223372036854775808; 7].
+Proof. vm_compute. reflexivity. Qed.
+
 (* the rule is needed: a width outside it (59) is misread by the 8-byte read at bit shift 7 *)
 Example width_rule_needed : valid_width 59 = false /\
   unpacker_get 59 5 (pack 59 (repeat (2 ^ 59 - 1) 6)) <> Some (2 ^ 59 - 1).
@@ -138,6 +168,11 @@ Print Assumptions C08_num_bits_valid.
 Print Assumptions C08_stats_sound.
 Print Assumptions C08_codec_exact_bitpacked.
 Print Assumptions C08_codec_stats_bitpacked.
+Print Assumptions C08_codec_exact_linear.
+Print Assumptions C08_codec_linear_applicable.
+Print Assumptions C08_codec_stats_linear.
+Print Assumptions C08_codec_exact_blockwise.
+Print Assumptions C08_codec_stats_blockwise.
 Print Assumptions C08_range_transform_exact.
 Print Assumptions C08_range_lookup_bitpacked.
 Print Assumptions C08_range_below_min_refuted.
